@@ -359,7 +359,7 @@ type workerSpec struct {
 }
 
 func (ck *checker) workerEnv(race bool, procs int, tag string) []string {
-	env := append(os.Environ(), "VERIF_REPO="+repoDir)
+	env := append(os.Environ(), "VERIF_REPO="+repoDir, "TZ=UTC")
 	if procs <= 0 {
 		procs = 1
 	}
